@@ -478,6 +478,8 @@ class Sym:
         raise Top(f"branching on an opaque value {self}")
 
     def __getitem__(self, i):
+        if isinstance(i, Sym) and i.op not in ('dim', '.ndim', 'shape_rest'):
+            return Sym('gather', self, i)            # indexing by an index array = take(..., axis=0)
         return Sym('getitem', self, _freeze(i))
 
     def __iter__(self):
